@@ -87,6 +87,23 @@ def run(ctx):
         judge(ctx, g, seen)
         if len(ctx.samples) < 3 and len(g['contents']) == 2:
             ctx.samples.append({'group': g, 'forged': OB.encode_group(g).hex()})
+    # real calls and originations: recorded arguments with their entrypoints, whole mainnet scripts with their storages
+    from rv.gen import corpus as C
+    j = 0
+    for c in C.contracts():
+        for op in c['operations']:
+            j += 1
+            if not ctx.mine(j):
+                continue
+            t = GO.content(rng, 'transaction')
+            t['parameters'] = {'entrypoint': op['parameters'].get('entrypoint', 'default'), 'value': op['parameters'].get('value', {'prim': 'Unit'})}
+            contents = [t]
+            if op['storage'] is not None and j % 4 == 0:
+                o = GO.content(rng, 'origination')
+                o['script'] = {'code': c['code'], 'storage': op['storage']}
+                contents.append(o)
+            ctx.count('corpus_groups')
+            judge(ctx, {'branch': GO.group(rng, 1)['branch'], 'contents': contents}, seen)
     for k in OB.TAGS:
         ctx.require('kind_' + k, 5)
     ctx.require('forge_calls', 100)
